@@ -49,6 +49,27 @@ Theorem C16_served_monotone : forall kind o c r c',
 Proof. exact server_round_served. Qed.
 Print Assumptions C16_served_monotone.
 
+(* The reply path of the bare server (Steward.respond -> CustomResponder.build:
+   json.dumps of the echoed request, then .encode('utf-8')): for every parsed
+   request, body and JSON value json.loads can produce - strings with lone
+   surrogates, NUL, non-BMP characters, any nesting - and whether or not
+   json.dumps hits the recursion limit, building the reply does not raise. *)
+Theorem C16_reply_total : forall rec_hit ri body data k, respond_site rec_hit ri body data <> Exc k.
+Proof. exact respond_site_total. Qed.
+Print Assumptions C16_reply_total.
+
+(* because json.dumps with ensure_ascii (the default the code relies on) yields
+   ASCII for every value ... *)
+Theorem C16_dumps_ascii : forall v, forallb (fun c => c <? 128) (dumps true v) = true.
+Proof. exact dumps_ascii. Qed.
+Print Assumptions C16_dumps_ascii.
+
+(* ... whereas with ensure_ascii=False the same path raises on a lone surrogate
+   (what json.loads makes of "\ud83d"): the default is load-bearing. *)
+Theorem C16_reply_raw_refuted : exists v, build_reply false false v = Exc UnicodeErr.
+Proof. exists (JStr [55357]). reflexivity. Qed.
+Print Assumptions C16_reply_raw_refuted.
+
 (* Client: for every response byte sequence, fragmentation, close position,
    request method, redirect / dictable setting, external outcomes and from
    every client state, servicing does not raise. *)
